@@ -424,8 +424,8 @@ class StubsStringGenerator:
             if attribute.type:
                 attribute_type = attribute.type.to_dict()
 
-                # Don't create TypeVar attributes
-                if attribute_type["kind"] == "TypeVarType":
+                # Don't create TypeVar attributes (type_var = TypeVar("type_var")), but those that have a TypeVar as type
+                if attribute_type["kind"] == "TypeVarType" and attribute_type["name"] == attribute.name:
                     continue
 
             static_string = "static " if attribute.is_static else ""
